@@ -18,6 +18,7 @@ THEOREMS = [P + t for t in (
     # all sequences / permutations of merges
     "merge_sequence_union", "merge_first_wins_exact", "merge_succeeds_iff_compatible", "provenance_exact",
     "delegations_keyed_by_adm", "merge_order_independent_up_to_first_wins",
+    "rekey_ignores_inner_id", "rekey_idempotent", "stampNode_idempotent", "stampAll_idempotent",
     # all histories
     "history_invariant", "reachable_provenance_and_delegations", "remerge_counterexample",
     # unmerge
@@ -678,7 +679,7 @@ def oracle(ctx, res, nfam=None, nhist=None):
         if nontrivial(family, ops):
             res.nontrivial.add(canon([family, ops]))
     # 2. permutations + inverse on generated families
-    fams = [deterministic_family_first_wins(), deterministic_family_shared_edge()]
+    fams = [deterministic_family_first_wins(), deterministic_family_shared_edge(), L.coinciding_family()]
     fams += [c["family"] for c in corpus_cases() if "substring" in c["name"]]
     for i in range(nfam):
         k = 1 + i % 4
